@@ -28,7 +28,7 @@ SPEC = {
              'max_processes) for max_processes in {0, 1, 2, 4, None}; compared: all recorded data, device counters, '
              'asset values and histories, routing histories of collected parts, after id normalisation; a case is '
              'one model; non-trivial = the outcome differs under another seed (tie-breaks matter), so that equality '
-             'is not vacuous; also: a plain-library model with a user machine type, work orders still in progress at the end of the run and long histories'),
+             'is not vacuous; (f) merge points wired by one set_upstream() call in mid-run at 16 consecutive id offsets; splits exactly at user operations below the end marker\'s priority; a second study in worker processes after a process-wide parameter changed; also: a plain-library model with a user machine type, work orders still in progress at the end of the run and long histories'),
     'floors': {'quick': {'same_seed_pairs_equal': 45, 'models_where_other_seed_differs': 20,
                          'split_runs_equal': 30, 'parallel_results_compared': 60},
                'thorough': {'same_seed_pairs_equal': 1500, 'models_where_other_seed_differs': 500,
